@@ -825,103 +825,112 @@ Proof.
 Qed.
 
 (* an option may be appended to an enum that has options, and to an enum without options unless
-   it ends in UNSPECIFIED: that one would take the place of the implicit zero value *)
+   it ends in UNSPECIFIED: that one would take the place of the implicit zero value - wherever
+   the enum sits (J5sEdit.element_edit_ok / at_ok) *)
 Definition edit_ok (e : edit) (f : jfile) : Prop :=
   match e with
-  | EAppendOption _ k o =>
-      match nth_error (jf_elements f) k with
-      | Some (EEnum en) => enum_append_ok (e_opts en) [o]
-      | _ => True
-      end
+  | EAppendOption _ k _ | EAppendIn _ k _ _ _ => nth_ok k (element_edit_ok e) (jf_elements f)
   | _ => True
   end.
 
-Lemma enum_snoc_ext e o : field_ext (FEnumInline e) (FEnumInline (enum_snoc e o)) /\ nested_ext (NEnum e) (NEnum (enum_snoc e o)).
+Lemma enum_snoc_ext e o :
+  enum_append_ok (e_opts e) [o] ->
+  field_ext (FEnumInline e) (FEnumInline (enum_snoc e o)) /\ nested_ext (NEnum e) (NEnum (enum_snoc e o)).
 Proof.
-  destruct e as [nm pfx opts]. unfold enum_snoc. cbn [e_opts e_name e_prefix].
-  destruct opts as [|o0 r].
-  - destruct (unspec o) eqn:E; [split; constructor|].
-    change [o] with ([] ++ [o]). split; constructor; right; exact E.
-  - split; constructor; left; discriminate.
+  destruct e as [nm pfx opts]. unfold enum_snoc. cbn [e_opts e_name e_prefix]. intros H. split; constructor; exact H.
 Qed.
 
-Lemma in_field_ext onmsg onenum :
-  (forall ps, props_ext ps (onmsg ps)) -> (forall e, field_ext (FEnumInline e) (FEnumInline (onenum e))) ->
-  forall f, field_ext f (in_field onmsg onenum f).
+Lemma in_field_ext onmsg onenum (P : props -> Prop) (E : enum -> Prop) :
+  (forall ps, P ps -> props_ext ps (onmsg ps)) -> (forall e, E e -> field_ext (FEnumInline e) (FEnumInline (onenum e))) ->
+  forall f, field_at_ok P E f -> field_ext f (in_field onmsg onenum f).
 Proof.
-  intros Hg He f. induction f; cbn [in_field]; try apply fe_refl.
-  - constructor. apply Hg.
-  - constructor. apply Hg.
-  - apply He.
-  - constructor. assumption.
-  - constructor. assumption.
+  intros Hg He f. induction f; cbn [in_field field_at_ok]; intros H; try apply fe_refl.
+  - constructor. apply Hg. exact H.
+  - constructor. apply Hg. exact H.
+  - apply He. exact H.
+  - constructor. apply IHf. exact H.
+  - constructor. apply IHf. exact H.
 Qed.
 
-Lemma in_nested_ext onmsg onenum :
-  (forall ps subs, props_ext ps (fst (onmsg ps subs)) /\ nesteds_ext subs (snd (onmsg ps subs))) ->
-  (forall e, nested_ext (NEnum e) (NEnum (onenum e))) ->
-  forall n, nested_ext n (in_nested onmsg onenum n).
+Lemma in_nested_ext onmsg onenum (P : props -> nesteds -> Prop) (E : enum -> Prop) :
+  (forall ps subs, P ps subs -> props_ext ps (fst (onmsg ps subs)) /\ nesteds_ext subs (snd (onmsg ps subs))) ->
+  (forall e, E e -> nested_ext (NEnum e) (NEnum (onenum e))) ->
+  forall n, nested_at_ok P E n -> nested_ext n (in_nested onmsg onenum n).
 Proof.
-  intros Hg He n. destruct n as [nm ps subs|nm ps subs|e]; cbn [in_nested].
-  - destruct (Hg ps subs) as [A B]. destruct (onmsg ps subs). constructor; assumption.
-  - destruct (Hg ps subs) as [A B]. destruct (onmsg ps subs). constructor; assumption.
-  - apply He.
+  intros Hg He n. destruct n as [nm ps subs|nm ps subs|e]; cbn [in_nested nested_at_ok]; intros H.
+  - destruct (Hg ps subs H) as [A B]. destruct (onmsg ps subs). constructor; assumption.
+  - destruct (Hg ps subs H) as [A B]. destruct (onmsg ps subs). constructor; assumption.
+  - apply He. exact H.
 Qed.
 
-Lemma update_prop_ext g : (forall f, field_ext f (g f)) -> forall ps i, props_ext ps (update_prop i g ps).
+Lemma update_prop_ext g (Q : field -> Prop) : (forall f, Q f -> field_ext f (g f)) ->
+  forall ps i, prop_at i Q ps -> props_ext ps (update_prop i g ps).
 Proof.
-  intros Hg ps. induction ps as [|[n rq op f] r IH]; intros i; destruct i; cbn [update_prop]; try constructor;
-    try apply props_ext_refl; try apply Hg; try apply IH.
+  intros Hg ps. induction ps as [|[n rq op f] r IH]; intros i H; destruct i; cbn [update_prop prop_at] in *; try constructor;
+    try apply props_ext_refl; try (apply Hg; exact H); try (apply IH; exact H).
 Qed.
 
-Lemma update_nested_ext g : (forall n, nested_ext n (g n)) -> forall ns k, nesteds_ext ns (update_nested k g ns).
+Lemma update_nested_ext g (Q : nested -> Prop) : (forall n, Q n -> nested_ext n (g n)) ->
+  forall ns k, nested_at k Q ns -> nesteds_ext ns (update_nested k g ns).
 Proof.
-  intros Hg ns. induction ns as [|n r IH]; intros k; destruct k; cbn [update_nested]; try constructor;
-    try apply nesteds_ext_refl; try apply ne_refl; try apply Hg; try apply IH.
+  intros Hg ns. induction ns as [|n r IH]; intros k H; destruct k; cbn [update_nested nested_at] in *; try constructor;
+    try apply nesteds_ext_refl; try apply ne_refl; try (apply Hg; exact H); try (apply IH; exact H).
 Qed.
 
 (* appending at an address inside a message - into inline types and nested declarations, to any
-   depth - is an extension *)
-Lemma apply_at_ext a path : forall ps subs,
+   depth - is an extension, for every address / action that is not the excluded one *)
+Lemma apply_at_ext a path : forall ps subs, at_ok path a ps subs ->
   props_ext ps (fst (apply_at path a ps subs)) /\ nesteds_ext subs (snd (apply_at path a ps subs)).
 Proof.
-  induction path as [|st rest IH]; intros ps subs.
+  induction path as [|st rest IH]; intros ps subs Hok.
   - cbn [apply_at]. destruct a; cbn [fst snd]; split;
       try apply props_ext_refl; try apply nesteds_ext_refl; [apply props_ext_snoc|apply nesteds_ext_napp].
-  - destruct st as [i|k]; cbn [apply_at fst snd]; split;
+  - destruct st as [i|k]; cbn [apply_at at_ok fst snd] in *; split;
       try apply props_ext_refl; try apply nesteds_ext_refl.
-    + apply update_prop_ext. apply in_field_ext; [intros q; apply IH|].
-      intros e. destruct rest; [destruct a; try apply fe_refl; apply enum_snoc_ext|apply fe_refl].
-    + apply update_nested_ext. apply in_nested_ext; [exact IH|].
-      intros e. destruct rest; [destruct a; try apply ne_refl; apply enum_snoc_ext|apply ne_refl].
+    + eapply update_prop_ext; [|exact Hok]. apply in_field_ext.
+      * intros q Hq. apply IH. exact Hq.
+      * intros e He. destruct rest; [destruct a; try apply fe_refl; apply enum_snoc_ext; exact He|apply fe_refl].
+    + eapply update_nested_ext; [|exact Hok]. apply in_nested_ext.
+      * intros q s Hq. apply IH. exact Hq.
+      * intros e He. destruct rest; [destruct a; try apply ne_refl; apply enum_snoc_ext; exact He|apply ne_refl].
 Qed.
 
-Lemma apply_props_ext a path ps : props_ext ps (apply_props path a ps).
-Proof. apply apply_at_ext. Qed.
+Lemma apply_props_ext a path ps : at_ok path a ps NNil -> props_ext ps (apply_props path a ps).
+Proof. intros H. apply apply_at_ext. exact H. Qed.
 
-Lemma edit_element_ext e el :
-  (match e, el with EAppendOption _ _ o, EEnum en => enum_append_ok (e_opts en) [o] | _, _ => True end) ->
-  element_ext el (edit_element e el).
+Lemma forall2_update_nth_at {A} (R : A -> A -> Prop) (g : A -> A) (Q : A -> Prop) k l :
+  (forall a, R a a) -> (forall a, Q a -> R a (g a)) -> nth_ok k Q l -> Forall2 R l (update_nth k g l).
+Proof.
+  intros Hr Hg. revert k. induction l as [|x r IH]; intros k H; destruct k; cbn [update_nth]; constructor.
+  - apply Hg. exact H.
+  - apply forall2_refl. exact Hr.
+  - apply Hr.
+  - apply IH. exact H.
+Qed.
+
+Lemma edit_element_ext e el : element_edit_ok e el -> element_ext el (edit_element e el).
 Proof.
   intros Hok. destruct e as [fi k p|fi k o|fi d|fi k mi p|fi k mi p|fi k mi p|fi k rt path act].
   7: { destruct rt as [|mi|mi|reply mi]; destruct el as [nm ps subs|nm ps subs|en|[nm base ms]|t];
-         cbn [edit_element]; try apply element_ext_refl.
-       - destruct (apply_at_ext act path ps subs) as [A B]. destruct (apply_at path act ps subs). constructor; assumption.
-       - destruct (apply_at_ext act path ps subs) as [A B]. destruct (apply_at path act ps subs). constructor; assumption.
-       - constructor. cbn [sv_methods]. apply forall2_update_nth; [apply method_ext_refl|].
-         intros m. repeat split; try reflexivity; cbn.
-         + apply apply_props_ext.
+         cbn [edit_element element_edit_ok] in *; try apply element_ext_refl.
+       - destruct (apply_at_ext act path ps subs Hok) as [A B]. destruct (apply_at path act ps subs). constructor; assumption.
+       - destruct (apply_at_ext act path ps subs Hok) as [A B]. destruct (apply_at path act ps subs). constructor; assumption.
+       - constructor. cbn [sv_methods] in *.
+         eapply forall2_update_nth_at; [apply method_ext_refl| |exact Hok].
+         intros m Hm. repeat split; try reflexivity; cbn.
+         + apply apply_props_ext. exact Hm.
          + destruct (m_response m); [apply props_ext_refl|exact I].
-       - constructor. cbn [sv_methods]. apply forall2_update_nth; [apply method_ext_refl|].
-         intros m. repeat split; try reflexivity; cbn.
+       - constructor. cbn [sv_methods] in *.
+         eapply forall2_update_nth_at; [apply method_ext_refl| |exact Hok].
+         intros m Hm. repeat split; try reflexivity; cbn.
          + apply props_ext_refl.
-         + destruct (m_response m); [apply apply_props_ext|exact I].
+         + cbv beta in Hm. destruct (m_response m); [apply apply_props_ext; exact Hm|exact I].
        - constructor. destruct t as [n ms|n rq rp|n en m|n en m]; [|destruct reply| |]; constructor;
-           try (apply forall2_update_nth; [apply tmsg_ext_refl|]; intros x; split; [reflexivity|apply apply_props_ext]);
+           try (eapply forall2_update_nth_at; [apply tmsg_ext_refl| |exact Hok]; intros x Hx; split; [reflexivity|apply apply_props_ext; exact Hx]);
            try (apply forall2_refl; apply tmsg_ext_refl);
-           try (split; [reflexivity|apply apply_props_ext]). }
+           try (split; [reflexivity|apply apply_props_ext; exact Hok]). }
   all: destruct el as [nm ps subs|nm ps subs|en|[nm base ms]|t];
-    cbn [edit_element]; try apply element_ext_refl.
+    cbn [edit_element element_edit_ok] in *; try apply element_ext_refl.
   - constructor; [apply props_ext_snoc|apply nesteds_ext_refl].
   - constructor; [apply props_ext_snoc|apply nesteds_ext_refl].
   - destruct en as [n pf os]. cbn [e_name e_prefix e_opts] in *. constructor. exact Hok.
@@ -940,18 +949,15 @@ Proof.
 Qed.
 
 Lemma update_edit_ext e l : forall k,
-  (match e with
-   | EAppendOption _ _ o => match nth_error l k with Some (EEnum en) => enum_append_ok (e_opts en) [o] | _ => True end
-   | _ => True
-   end) ->
+  nth_ok k (element_edit_ok e) l ->
   Forall2 element_ext l (update_nth k (edit_element e) l).
 Proof.
-  induction l as [|x r IH]; intros k Hok; destruct k; cbn [update_nth]; try constructor.
-  - apply edit_element_ext. destruct e; try (destruct x; exact I). cbn in Hok. destruct x; try exact I. exact Hok.
-  - apply forall2_refl. apply element_ext_refl.
-  - apply element_ext_refl.
-  - apply IH. destruct e; try exact I. exact Hok.
+  intros k H. eapply forall2_update_nth_at; [apply element_ext_refl| |exact H].
+  intros el Hel. apply edit_element_ext. exact Hel.
 Qed.
+
+Lemma nth_ok_trivial {A} (Q : A -> Prop) k l : (forall x, Q x) -> nth_ok k Q l.
+Proof. intros H. unfold nth_ok. destruct (nth_error l k); [apply H|exact I]. Qed.
 
 (* every C13 edit extends the source file in the sense of [file_src_ext] *)
 Theorem edit_file_ext e f : edit_ok e f -> file_src_ext f (edit_file e f).
@@ -960,8 +966,8 @@ Proof.
   3: { repeat split; try reflexivity. exists (jf_elements f), [d]. split; [|reflexivity].
        apply forall2_refl. apply element_ext_refl. }
   all: repeat split; try reflexivity; eexists; exists []; (split; [|cbn [jf_elements]; rewrite app_nil_r; reflexivity]).
-  all: apply update_edit_ext; try exact I.
-  exact Hok.
+  all: apply update_edit_ext; try exact Hok.
+  all: apply nth_ok_trivial; intros el; destruct el; exact I.
 Qed.
 
 (* ... hence so does every sequence of edits applied to that file (induction over the list) *)
